@@ -540,6 +540,20 @@ TConstsChecks(e) ==
        /\ e.ep_dst = <<EpDstRank(0), EpDstRank(1)>>>>,
    <<"pawn_deltas", e.fwd = <<-8, 8>> /\ e.left = <<-9, 7>> /\ e.right = <<-7, 9>>>>}
 
+TMoveApiChecks(e) ==
+  {<<"from_castling", e.castlings = <<CastlingMoveOf(0, SideQ), CastlingMoveOf(0, SideK), CastlingMoveOf(1, SideQ), CastlingMoveOf(1, SideK)>>>>,
+   <<"kind_promote_and_matches_piece", Len(e.kinds) = 10 /\ \A i \in 1..10 : LET x == e.kinds[i] IN
+        x.kind = i - 1 /\ x.promote = KindPromotes(i - 1) /\ \A pc \in 0..5 : x.matches[pc + 1] = KindMatchesPiece(i - 1, pc)>>,
+   <<"unset_color", \A cr \in 0..15 : \A c \in {0, 1} : e.unset_color[cr + 1][c + 1] = UnsetColor(cr, c)>>,
+   <<"ep_dest", \A c \in {0, 1} : e.ep_dest[c + 1][1] = -1 /\ \A s \in Sq : e.ep_dest[c + 1][s + 2] = EpDestOf(c, s)>>,
+   <<"put2_get2", Len(e.put2) = 64 /\ \A i \in 1..64 : LET x == e.put2[i] IN
+        x.at = <<MkSq(x.file, x.rank)>> /\ x.get2 = x.cell /\ x.get = x.cell>>,
+   <<"initial_values", PosOfJson(e.initial) = InitialPos /\ PosOfJson(e.raw_initial) = InitialPos /\ PosOfJson(e.raw_empty) = EmptyPos
+        /\ IsValid(InitialPos)>>,
+   <<"new_initial", PosOfJson(e.new_initial.start) = InitialPos /\ PosOfJson(e.new_initial.last) = InitialPos
+        /\ e.new_initial.len = 0 /\ e.new_initial.eq_new /\ e.new_initial.outcome_none>>,
+   <<"null_move", MoveOfJson(e.null_move) = <<0, 0, 0, 0>> /\ e.null_uci = UciOf(<<0, 0, 0, 0>>) /\ e.kind_null_default = KNull>>}
+
 TGeometryChecks(e) ==
   {<<"shift", \A s \in Sq : \A df \in -8..8 : \A dr \in -8..8 :
                 e.shifts[s + 1][(df + 8) * 17 + (dr + 8) + 1] = Shift(s, df, dr)>>,
@@ -615,6 +629,7 @@ EventChecks(e) ==
     [] e.ev = "t_chars" -> TCharsChecks(e)
     [] e.ev = "t_strings" -> TStringsChecks(e)
     [] e.ev = "t_consts" -> TConstsChecks(e)
+    [] e.ev = "t_moveapi" -> TMoveApiChecks(e)
     [] e.ev = "t_geometry" -> TGeometryChecks(e)
     [] e.ev = "bb_binary" -> BBBinaryChecks(e)
     [] e.ev = "bb_unary" -> BBUnaryChecks(e)
